@@ -406,6 +406,15 @@ Theorem F3_old_variant_peraxis_nearest_integer_values_refuted :
     exists r, interp_call as_found KNearest [] [c] DInt v (IPoints [[x]]) None = Ok r.
 Proof. exact peraxis_nearest_integer_values_refuted. Qed.
 
+(* the REGENERATED factory dispatch (Gen/InterpWeights.v, from per_axis_interp and
+   _LinearInterpolator.__init__): per_axis_interpolator is served by the index-based evaluator
+   exactly when no axis is 'linear', and linear_interpolator is per-axis 'linear' on every axis *)
+Theorem peraxis_dispatch_index_based_iff_no_linear : forall ss : list scheme,
+  gen_peraxis_index_based ss = negb (has_linear ss).
+Proof. exact index_based_no_linear. Qed.
+Theorem linear_interpolator_scheme : gen_linear_scheme = SLinear.
+Proof. exact linear_scheme_is_linear. Qed.
+
 (* the call returns the values the theorems above speak about *)
 Theorem call_returns_model_values : forall k ss (cvs : list (list R)) flat i,
   malformed cvs i None = false -> degenerate (schemes_of k ss cvs) cvs = false ->
